@@ -78,6 +78,13 @@ func runC14(c *Ctx) {
 	L.Note("published-buffer-reuse: %d publication sites examined in package align", n)
 	L.Floor("published-buffer-reuse", 10, "functions of package align that store slices into structs/containers (floor = half of the instances on the pinned tree: a clean-up may merge instances, a rule that sees nothing must still fail)")
 	c.checkLenOfEmpty("len-of-empty", c.P.SrcFuncs("align"))
+	// (f) per-row contributions are not cut short
+	var scan [][3]string
+	for _, t := range pure {
+		scan = append(scan, [3]string{t.Rel, t.Recv, t.Name})
+	}
+	c.checkScanComplete("scan-complete", scan)
+	L.Floor("scan-complete", 1, "NumGapsUniquePerSequence's profile counter; the other per-index counters of the statistics have no early exit")
 	L.Assumes("alignment shape invariant: every row reached through the receiver has the cached length")
 	L.Trusts("effect table for standard-library callees (sa/rules/e3_effects.go)")
 }
